@@ -127,7 +127,9 @@ CLAIMS["C19"] = dict(
           "nil global resolver unchanged) and Route.ClientIPResolver; WithAnnotation stores under hashable keys and rejects the others with ErrInvalidConfig without panicking for "
           "any key (exposed a genuine defect, repaired); NewRoute: fresh route with the pattern, handler, parameter count == number of wildcards and host split at the first slash, "
           "all options applied in order, first error aborts; accessors Hostname/Path/Pattern/ParamsLen; Context.ClientIP uses the matched route's resolver when a route is set and "
-          "the router's otherwise. Not decided: global option closures other than those listed, ServeHTTP's choice of route (C12)."),
+          "the router's otherwise (ServeHTTP hands every non-route handler a context with no route). A route created without options inherits the router's trailing-slash mode, resolver and "
+          "middleware count; WithNoRouteHandler/WithNoMethodHandler/WithOptionsHandler reject nil with ErrInvalidConfig before touching the router and otherwise install the handler "
+          "(the latter two enabling their feature), WithNoMethod/WithAutoOptions set their flag. Not decided: WithMaxRouteParams/KeyBytes, WithMiddlewareFor's closure (WithMiddleware's is)."),
     design_ref="DESIGN.md section 4 C19, section 9",
     note=TRUSTED + " Assumed contracts: reflect.ValueOf/Value.Comparable (hashability), cmp.Or, the RouteOption/optionFunc contracts for foreign options.")
 CLAIMS["C20"] = dict(
